@@ -39,10 +39,10 @@ type Client struct {
 	hidden map[string]bool
 	calls  map[string]int
 	// watch fault plan
-	failRecvAt   map[int]map[int]codes.Code // stream number (0-based, in order of establishment) -> message index -> code
-	failEstablish int                        // fail the next n Watch establishments (after the first stream) with Unavailable
+	failRecvAt           map[int]map[int]codes.Code // stream number (0-based, in order of establishment) -> message index -> code
+	failEstablish        int                        // fail the next n Watch establishments (after the first stream) with Unavailable
 	failEstablishForever bool
-	streams      int
+	streams              int
 	// Buffer is the per-stream message buffer (emulates transport flow-control window).
 	Buffer int
 
@@ -62,7 +62,11 @@ type FailHit struct {
 }
 
 // FailHits returns the injected failures that were actually hit.
-func (c *Client) FailHits() []FailHit { c.mu.Lock(); defer c.mu.Unlock(); return append([]FailHit(nil), c.failHits...) }
+func (c *Client) FailHits() []FailHit {
+	c.mu.Lock()
+	defer c.mu.Unlock()
+	return append([]FailHit(nil), c.failHits...)
+}
 
 // New creates a loopback client around a server implementation.
 func New(srv v1alpha1.StateServer) *Client {
@@ -76,7 +80,11 @@ func (c *Client) Hide(method string) { c.mu.Lock(); c.hidden[method] = true; c.m
 func (c *Client) Calls(method string) int { c.mu.Lock(); defer c.mu.Unlock(); return c.calls[method] }
 
 // Panics returns the recovered handler panics.
-func (c *Client) Panics() []Panic { c.mu.Lock(); defer c.mu.Unlock(); return append([]Panic(nil), c.panics...) }
+func (c *Client) Panics() []Panic {
+	c.mu.Lock()
+	defer c.mu.Unlock()
+	return append([]Panic(nil), c.panics...)
+}
 
 // FailRecv makes the stream-th Watch stream fail its idx-th Recv (0 = the establishment acknowledgement) with code.
 func (c *Client) FailRecv(stream, idx int, code codes.Code) {
